@@ -287,13 +287,15 @@ impl<'a> Chunks<'a> {
             Entry::Vacant(_) => return Err(ReadableError::ClosedStream),
         };
 
-        let mut recv =
-            match get_or_insert_recv(streams.stream_receive_window)(entry.get_mut()).stopped {
-                true => return Err(ReadableError::ClosedStream),
-                false => entry.remove().unwrap().into_inner(), // this can't fail due to the previous get_or_insert_with
-            };
-
+        let recv = get_or_insert_recv(streams.stream_receive_window)(entry.get_mut());
+        if recv.stopped {
+            return Err(ReadableError::ClosedStream);
+        }
+        // Refuse an illegal ordered read while the stream is still stored: the caller may go on
+        // reading it unordered
         recv.assembler.ensure_ordering(ordered)?;
+        let recv = entry.remove().unwrap().into_inner(); // this can't fail due to the previous get_or_insert_with
+
         Ok(Self {
             id,
             ordered,
